@@ -18,6 +18,20 @@ CLAIMED = {
              'are insertion-ordered in the code (refuted example in the file, known finding K2, not yet replayed)',
         technique='Coq proof (sorted-permutation uniqueness, sort/map commutation) + differential correspondence via vm_compute',
         ref='DESIGN.md section 5, C02'),
+    'C09': dict(
+        category='proof',
+        text='Theorems about the config/context model: dict.update is later-wins; a config mounted as ns reads the '
+             'context entry for exactly ns, else the global context entry, else its own value (entries of every other '
+             'namespace are irrelevant); effective parameter value with default, missing-required and dtype errors; '
+             'later contexts win in merges; uses-as composes namespaces and propagates the same context; a task is '
+             'registered with the parameters of its declaring config only, other tasks are untouched, and a second '
+             'config declaring the same full name is a conflict error. Tied to Config/Context/Chain by differential runs '
+             'of whole config trees (files, parts, namespaces, contexts as dict/file/list); the oracle recomputes effective '
+             'values by the declared precedence. Heap aliasing is checked by the harness only.',
+        note='partial: "share no mutable values" is a heap property outside the functional model (harness-only suite); '
+             'well-formed contexts (unique keys/namespaces) assumed by the precedence theorems',
+        technique='Coq proof (association-list update algebra, fold invariants) + differential correspondence via vm_compute',
+        ref='DESIGN.md section 5, C09'),
     'C10': dict(
         category='proof',
         text='Theorems over all name lists and queries (arbitrary text, no well-formedness needed): resolution is '
